@@ -33,7 +33,13 @@ THEOREMS = ['unique_names_fresh', 'unique_names_never_reused', 'unicast_exact', 
             'order_preserved', 'bus_calls_answered_not_forwarded', 'disconnect_completes',
             'broadcast_exact', 'rules_held_by_connected_clients', 'sender_constraint_is_ignored',
             'simple_rule_keys_are_the_routers',
-            'original_unicast_reaches_rule_holder', 'original_rule_outlives_its_client']
+            'original_unicast_reaches_rule_holder', 'original_rule_outlives_its_client',
+            # extension 2026-09-30: the full rule language, composed with C12
+            'bus_rule_matches_iff_c12_spec', 'full_rule_matches_iff_spec', 'held_rules_were_registered',
+            'broadcast_exact_full', 'broadcast_exact_c12_spec', 'addmatch_text_roundtrip',
+            'client_text_rule_matches_spec', 'client_text_events_are_wf', 'broadcast_order_preserved',
+            'broadcast_first_copies_in_order', 'simple_rules_embed', 'arg0namespace_is_ignored',
+            'sender_constraint_is_ignored_full']
 TRUSTED_BASE = [
     'a message is its observable header (type, serial, whole flags byte, the nine known header fields, a token for fields '
     'with unknown codes) plus an opaque body token (byte order + signature + digest of the body bytes); the model\'s '
